@@ -76,6 +76,15 @@ type SimDisk struct {
 	onStore    func(name string, b []byte)
 	StoreTotal int
 	LoadTotal  int
+	// mirror, when set, receives every successfully completed Store as well (e.g. the real
+	// file store on a scratch directory), so that what a real back end keeps can be inspected
+	mirror    Persistish
+	MirrorErr error
+}
+
+// Persistish is the subset of mast.Persist the mirror needs.
+type Persistish interface {
+	Store(context.Context, string, []byte) error
 }
 
 func NewSimDisk(prefix string) *SimDisk {
@@ -174,6 +183,7 @@ func (d *SimDisk) Store(ctx context.Context, name string, b []byte) error {
 		default:
 			d.durable[name] = cp
 			d.event("store", name, len(cp), "ok")
+			d.toMirror(ctx, name, cp)
 			return nil
 		}
 	}
@@ -193,7 +203,17 @@ func (d *SimDisk) Store(ctx context.Context, name string, b []byte) error {
 	}
 	d.durable[name] = cp
 	d.event("store", name, len(cp), "ok")
+	d.toMirror(ctx, name, cp)
 	return nil
+}
+
+func (d *SimDisk) toMirror(ctx context.Context, name string, b []byte) {
+	if d.mirror == nil {
+		return
+	}
+	if err := d.mirror.Store(ctx, name, b); err != nil && d.MirrorErr == nil {
+		d.MirrorErr = err
+	}
 }
 
 func (d *SimDisk) Load(ctx context.Context, name string) ([]byte, error) {
